@@ -290,4 +290,19 @@ example : Tr c14Cfg (stateAt c14Cfg c14P [] 4 c14Sched 12) ∧
 /-- … and fails exactly in the finding's window (k = 9) -/
 example : ¬ Tr c14Cfg (stateAt c14Cfg c14P [] 4 c14Sched 9) := fun h => absurd h.aliveRun (by decide)
 
+/-- serial runner, re-execution of a cached key (`bust_cache`, entries 0 ↦ 5 and 1 ↦ 6 present):
+    an interrupt INSIDE `BaseCache.save` (k = 7: after `serialSaveBegin`, before `serialSaveEnd`)
+    runs save's cleanup, which deletes the key — the old entry of task 0 is gone, task 1's stays;
+    one step earlier (k = 6) the old entry is intact, one step later (k = 8) the new one is there.
+    `store_consistent` covers all three: entries are only ever prior or genuinely computed ones. -/
+example :
+    (interruptedRun { c14Cfg with backend := .serial, bust := true } c14P [(0, 5), (1, 6)] 4 c14Sched 6 [] none).final.rs.store
+      = [(0, 5), (1, 6)] ∧
+    (interruptedRun { c14Cfg with backend := .serial, bust := true } c14P [(0, 5), (1, 6)] 4 c14Sched 7 [] none).final.rs.store
+      = [(1, 6)] ∧
+    (interruptedRun { c14Cfg with backend := .serial, bust := true } c14P [(0, 5), (1, 6)] 4 c14Sched 8 [] none).final.rs.store
+      = [(0, 0), (1, 6)] ∧
+    (interruptedRun { c14Cfg with backend := .serial, bust := true } c14P [(0, 5), (1, 6)] 4 c14Sched 7 [] none).outcome
+      = .interrupted := by decide
+
 end Lt
